@@ -388,6 +388,8 @@ func NeedBlank(a, b Tok) bool {
 		return true
 	case strings.HasSuffix(a.Text, "(") && strings.HasPrefix(b.Text, "("):
 		return true
+	case a.Kind == TOp && a.Text == "<<" && strings.HasPrefix(b.Text, "-"):
+		return true // "<<" "-E" must not become "<<-"
 	case a.Kind == TWord && allDigits(a.Text) && b.Kind == TOp && isRedirOp(b.Text):
 		return true
 	case a.Kind == TOp && b.Kind == TOp && a.Text != ")" && b.Text != "(" && b.Text != ")":
